@@ -42,7 +42,9 @@ def plan(tier, seed):
     else:
         kinds = {"batch": 40000, "droplet": 600000}
         per = 20000
-    return common.shards({"batch": kinds["batch"]}, per_shard=per // 3, tier=tier, seed=seed) + \
+    nojit = common.shards({"batch-nojit": max(60, kinds["batch"] // 10)}, per_shard=per // 3, tier=tier, seed=seed,
+                          extra={"env": {"NUMBA_DISABLE_JIT": "1", "NUMBA_BOUNDSCHECK": "1"}})
+    return common.shards({"batch": kinds["batch"]}, per_shard=per // 3, tier=tier, seed=seed) + nojit + \
         common.shards({"droplet": kinds["droplet"]}, per_shard=per * 2, tier=tier, seed=seed)
 
 
@@ -57,7 +59,7 @@ def S(r, dim):
 
 
 def gen(rng, kind, tier):
-    if kind == "batch":
+    if kind in ("batch", "batch-nojit"):
         n = int(rng.choice([0, 1, 1, 5, 40]))
         lo = float(rng.uniform(-15, 12))
         span = float(rng.choice([0.5, 3.0, 30.0]))
@@ -68,11 +70,14 @@ def gen(rng, kind, tier):
         return {"values": vals, "dim": int(rng.integers(1, 4))}
     dim = int(rng.integers(1, 4))
     cls = str(rng.choice(["SphericalDroplet", "DiffuseDroplet"]))
+    if rng.random() < 0.12:
+        dim, cls = 2, "PerturbedDroplet2D"  # the only perturbed class whose volume can be set
     R = float(rng.choice([0.0, 1.0])) if rng.random() < 0.1 else float(10 ** rng.uniform(-6, 6))
     return {"cls": cls, "pos": [float(x) for x in rng.normal(0, 10 ** rng.uniform(-1, 3), dim)], "radius": R,
             "new_volume": (float(10 ** rng.uniform(-12, 12)) if rng.random() > 0.15 else float(10 ** rng.uniform(-30, -12)))
             if rng.random() > 0.05 else 0.0,
-            "width": None if rng.random() < 0.5 else 0.3, "route": common.pick_route(rng, 0.5)}
+            "width": None if rng.random() < 0.5 else 0.3, "route": common.pick_route(rng, 0.5),
+            "amps": [float(x) for x in rng.uniform(-0.3, 0.3, int(rng.integers(1, 5)))]}
 
 
 _c: dict = {}
@@ -122,6 +127,10 @@ def run_batch(case, rec):
     label = f"dim={dim} values={case['values'][:5]}"
     # as array
     forms = [("array", arr)] + [(f"scalar[{i}]", float(x)) for i, x in enumerate(arr[:3])]
+    if arr.size >= 1:
+        forms.append(("0-d array", np.array(float(arr[0]))))
+    if arr.size >= 4 and arr.size % 2 == 0:
+        forms.append(("2-d array", arr.reshape(2, -1)))
     for fname, x in forms:
         is_arr = isinstance(x, np.ndarray)
         lab = f"{label} form={fname}"
@@ -199,6 +208,8 @@ def run_droplet(case, rec):
     dim = len(case["pos"])
     pos = np.asarray(case["pos"], float)
     R = case["radius"]
+    if case["cls"] == "PerturbedDroplet2D":
+        return run_perturbed_setter(case, rec)
     if case["cls"] == "SphericalDroplet":
         d = droplets.SphericalDroplet(pos, R)
     else:
@@ -249,8 +260,40 @@ def run_droplet(case, rec):
         rec.count("radius_zero_before_setting_volume")
 
 
+def run_perturbed_setter(case, rec):
+    """Setting the volume of a perturbed 2-D droplet and reading it back returns the value set
+    (the relative perturbation is kept, so the volume is pi R^2 (1 + sum a^2 / 2))."""
+    from droplets import droplets as dmod
+
+    pos = np.asarray(case["pos"], float)
+    amps = np.asarray(case["amps"], float)
+    d = common.via(dmod.PerturbedDroplet2D(pos, case["radius"], case["width"], amps), case.get("route"))
+    label = str(case)
+    nv = case["new_volume"]
+
+    def setv():
+        d.volume = nv
+        return d.volume
+
+    c = common.monitored(rec, "volume-setter", setv)
+    if rec.check(c.ok, "no-exception", f"setting the volume raised {common.exc_text(c.exc) if c.exc else ''}; {label}"):
+        rec.check(bool(np.isfinite(c.result)) and abs(c.result - nv) <= 1e-13 * nv, "volume-setter",
+                  f"set volume {nv!r}, read back {c.result!r}; {label}")
+        term = 1 + float(np.sum(amps ** 2)) / 2
+        rec.check(abs(d.radius - math.sqrt(nv / (math.pi * term))) <= 1e-13 * max(d.radius, 1e-300) and
+                  np.array_equal(np.asarray(d.position), pos) and np.array_equal(np.asarray(d.amplitudes), amps), "volume-setter",
+                  f"after setting the volume: radius {d.radius}, position {list(map(float, d.position))}, amplitudes "
+                  f"{list(map(float, d.amplitudes))}; {label}")
+    rec.evaluated(nontrivial=True)
+    rec.count("droplet_dim:2|PerturbedDroplet2D")
+    if case["radius"] == 0:
+        rec.count("radius_zero_before_setting_volume")
+
+
 def run(case, rec):
-    if case["kind"] == "batch":
+    if case["kind"] in ("batch", "batch-nojit"):
+        if case["kind"] == "batch-nojit":
+            rec.count("batches_with_the_jit_disabled")
         run_batch(case, rec)
     else:
         run_droplet(case, rec)
